@@ -5,6 +5,7 @@ package main
 import (
 	"fmt"
 	"go/token"
+	"os"
 	"sort"
 	"strings"
 
@@ -32,23 +33,23 @@ type guardSpec struct {
 }
 
 var guardedFields = map[string]guardSpec{
-	"Replica.pos":               {[]string{"Replica.mu"}, []string{"Replica.mu", "Replica.mu(R)"}, ""},
-	"DB.notify":                 {[]string{"DB.mu"}, []string{"DB.mu", "DB.mu(R)"}, ""},
-	"DB.opened":                 {[]string{"DB.mu"}, []string{"DB.mu", "DB.mu(R)"}, ""},
-	"DB.syncState":              {[]string{"DB.execSem", "DB.mu"}, []string{"DB.execSem", "DB.mu", "DB.mu(R)"}, "written under both, read under either"},
-	"DB.db":                     {[]string{"DB.execSem", "DB.mu"}, []string{"DB.execSem", "DB.mu", "DB.mu(R)"}, ""},
-	"DB.f":                      {[]string{"DB.execSem", "DB.mu"}, []string{"DB.execSem", "DB.mu", "DB.mu(R)"}, ""},
-	"DB.rtx":                    {[]string{"DB.execSem"}, []string{"DB.execSem"}, ""},
-	"DB.pageSize":               {[]string{"DB.execSem", "DB.mu"}, []string{"DB.execSem", "DB.mu", "DB.mu(R)"}, ""},
-	"DB.lastSuccessfulSyncAt":   {[]string{"DB.lastSuccessfulSyncMu"}, []string{"DB.lastSuccessfulSyncMu", "DB.lastSuccessfulSyncMu(R)"}, ""},
-	"Store.dbs":                 {[]string{"Store.mu"}, []string{"Store.mu"}, ""},
+	"Replica.pos":                   {[]string{"Replica.mu"}, []string{"Replica.mu", "Replica.mu(R)"}, ""},
+	"DB.notify":                     {[]string{"DB.mu"}, []string{"DB.mu", "DB.mu(R)"}, ""},
+	"DB.opened":                     {[]string{"DB.mu"}, []string{"DB.mu", "DB.mu(R)"}, ""},
+	"DB.syncState":                  {[]string{"DB.execSem", "DB.mu"}, []string{"DB.execSem", "DB.mu", "DB.mu(R)"}, "written under both, read under either"},
+	"DB.db":                         {[]string{"DB.execSem", "DB.mu"}, []string{"DB.execSem", "DB.mu", "DB.mu(R)"}, ""},
+	"DB.f":                          {[]string{"DB.execSem", "DB.mu"}, []string{"DB.execSem", "DB.mu", "DB.mu(R)"}, ""},
+	"DB.rtx":                        {[]string{"DB.execSem"}, []string{"DB.execSem"}, ""},
+	"DB.pageSize":                   {[]string{"DB.execSem", "DB.mu"}, []string{"DB.execSem", "DB.mu", "DB.mu(R)"}, ""},
+	"DB.lastSuccessfulSyncAt":       {[]string{"DB.lastSuccessfulSyncMu"}, []string{"DB.lastSuccessfulSyncMu", "DB.lastSuccessfulSyncMu(R)"}, ""},
+	"Store.dbs":                     {[]string{"Store.mu"}, []string{"Store.mu"}, ""},
 	"Store.heartbeatMonitorRunning": {[]string{"Store.mu"}, []string{"Store.mu"}, ""},
-	"Replica.f":                 {[]string{"Replica.muf"}, []string{"Replica.muf"}, ""},
+	"Replica.f":                     {[]string{"Replica.muf"}, []string{"Replica.muf"}, ""},
 }
 
 // named exceptions for guarded-by: "function|field|r/w" -> reason
 var guardExceptions = map[string]string{
-	"(*ls.DB).SQLDB|DB.db|read":    "exported accessor handing out the handle; synchronisation with Close is the caller's responsibility (documented for tests/tools)",
+	"(*ls.DB).SQLDB|DB.db|read":       "exported accessor handing out the handle; synchronisation with Close is the caller's responsibility (documented for tests/tools)",
 	"(*ls.Store).Open|Store.dbs|read": "Store.Open runs before any goroutine of the store exists and before the store is shared",
 }
 
@@ -412,12 +413,79 @@ func guardedBy2(c *Ctx, la *lockAnalysis, rule string, guardedFields map[string]
 				} else if reason, exc := guardExceptions[key]; exc {
 					c.ok(rule, construct+" [named exception]", c.pos(in), reason)
 				} else {
-					c.fail(rule, construct, c.pos(in), "held here: "+held.String())
+					// a finding is attributed to the unlocked entry it is reached from (a goroutine
+					// body, an exported entry point), so that moving the access between that entry
+					// and the functions only it calls unlocked does not rename the finding
+					owner := unlockedOrigin(la, fn, func(h lockSet) bool {
+						if write {
+							for _, g := range spec.write {
+								if !h[g] {
+									return false
+								}
+							}
+							return true
+						}
+						for _, g := range spec.read {
+							if h[g] {
+								return true
+							}
+						}
+						return false
+					})
+					construct = fmt.Sprintf("%s: %s of %s holds %s", owner, kind, field, need)
+					detail := "held here: " + held.String()
+					if owner != fnName(fn) {
+						detail = "in " + fnName(fn) + ", reached without the lock only from " + owner + "; " + detail
+					}
+					c.fail(rule, construct, c.pos(in), detail)
 				}
 			}
 		}
 	}
 	c.floor(rule, n, floor, "accesses to guarded fields")
+}
+
+// unlockedOrigin walks from fn up its production call sites that do not hold the
+// required locks and returns the single entry (goroutine body, function without
+// production callers) the access is reached from; fn itself when there is none or
+// more than one.
+func unlockedOrigin(la *lockAnalysis, fn *ssa.Function, sat func(lockSet) bool) string {
+	origins := map[*ssa.Function]bool{}
+	seen := map[*ssa.Function]bool{}
+	var walk func(f *ssa.Function)
+	walk = func(f *ssa.Function) {
+		if seen[f] {
+			return
+		}
+		seen[f] = true
+		sites := callSitesOf(f)
+		if len(sites) == 0 {
+			origins[f] = true
+			return
+		}
+		for _, s := range sites {
+			if _, isGo := s.(*ssa.Go); isGo {
+				origins[f] = true
+				continue
+			}
+			if sat(la.heldBefore(s)) {
+				continue
+			}
+			walk(s.Parent())
+		}
+	}
+	walk(fn)
+	if os.Getenv("LSV_DEBUG_ORIGIN") != "" {
+		for o := range origins {
+			fmt.Fprintln(os.Stderr, "origin of", fnName(fn), "=", fnName(o))
+		}
+	}
+	if len(origins) == 1 {
+		for o := range origins {
+			return fnName(o)
+		}
+	}
+	return fnName(fn)
 }
 
 func c12Close(c *Ctx, la *lockAnalysis) {
@@ -519,8 +587,8 @@ func c12Register(c *Ctx, la *lockAnalysis) {
 		return
 	}
 	var appendSt *ssa.Store
-	for _, st := range storesToField(fn, "Store.dbs") {
-		if st.Block().Parent() == fn {
+	for _, st := range storesToFieldDeep(fn, "Store.dbs") {
+		if st.Block().Parent().Parent() == nil {
 			appendSt = st
 		}
 	}
@@ -528,6 +596,10 @@ func c12Register(c *Ctx, la *lockAnalysis) {
 		c.fail(rule, fnName(fn)+": appends to Store.dbs", c.P.Pos(fn.Pos()), "no store to Store.dbs")
 		return
 	}
+	// the registration's root (Open/Close discipline) and the function holding the
+	// append's critical section (RegisterDB itself, or the helper it was moved into)
+	root := fn
+	fn = appendSt.Parent()
 	c.check(la.heldBefore(appendSt)["Store.mu"], rule, fnName(fn)+": append to Store.dbs under Store.mu", c.pos(appendSt), "held", "append without the lock")
 	// nearest Lock of Store.mu dominating the append (start of its critical section)
 	var lock ssa.CallInstruction
@@ -608,7 +680,7 @@ func c12Register(c *Ctx, la *lockAnalysis) {
 		c.check(whole, rule, fnName(fn)+": the duplicate scan in the append's critical section covers the whole list", c.pos(ia), "elements are indexed out of s.dbs", "the second duplicate check scans only part of s.dbs: a same-path instance outside that part is missed and a second instance of the database is appended")
 	}
 	// Open/Close are called without Store.mu
-	for _, call := range calls(fn) {
+	for _, call := range calls(root) {
 		switch calleeName(call) {
 		case "(*ls.DB).Open", "(*ls.DB).Close":
 			if _, isCall := call.(*ssa.Call); isCall {
@@ -618,7 +690,7 @@ func c12Register(c *Ctx, la *lockAnalysis) {
 				recv := argOf(call, 0)
 				own := false
 				for _, o := range origins(recv) {
-					if p, isP := o.(*ssa.Parameter); isP && p.Parent() == fn && refParamName(p) == "db" {
+					if p, isP := o.(*ssa.Parameter); isP && p.Parent() == root && refParamName(p) == "db" {
 						own = true
 					}
 				}
